@@ -16,9 +16,18 @@
 //	                sentinel succeeds, consumes exactly len(b) and yields a
 //	                value that reads back as x
 //
+// The two decoding entry points receive b in three ways: through the
+// fragmenting reader followed by a sentinel, through the fragmenting reader
+// one byte per read with a separate EOF, and as a *bytes.Buffer holding
+// exactly b (what generated stubs and proxies hand to the decoders; a
+// failure under this delivery only carries /reader=bytes.Buffer).
+//
 // Next to Sig x Val a boundary family (boundary.go) runs lists and maps of
 // exactly 4095 and 4096 entries (4096 = the documented cap of the codecs)
-// through the same three clauses.
+// through the same three clauses, and a zero-width family (zerowidth.go)
+// lists of 0..8 and maps of 0..1 entries that occupy no byte ([()], [v],
+// [(v())], {vv}...), alone and followed by 0..4 bytes of further members, so
+// that a count exceeds the number of bytes after it.
 //
 // The Go type of a signature is the one generated code uses (see
 // internal/enum/gobridge): 'm' is value.Value, 'o' object.ObjectReference.
@@ -28,6 +37,7 @@ import (
 	"bytes"
 	"encoding/hex"
 	"fmt"
+	"io"
 	"os"
 	"reflect"
 	"sync"
@@ -44,19 +54,46 @@ import (
 
 var run *enum.Run
 
+// delivery says how an encoding reaches a decoder: through the fragmenting
+// reader of internal/enum (followed by a sentinel, or ended by a separate EOF
+// and handed out one byte per read), or as a *bytes.Buffer holding exactly
+// the encoding - the reader type and extent production code decodes from
+// (bytes.NewBuffer(msg.Payload) in the generated stubs and proxies): a
+// decoder may take another path for a reader that can tell how much is left.
 type delivery struct {
 	mode  enum.EOFMode
 	chunk int
+	buf   bool
 }
 
 func (d delivery) String() string {
+	if d.buf {
+		return "reader=bytes.Buffer"
+	}
 	if d.chunk == 1 {
 		return d.mode.String() + "/1-byte-reads"
 	}
 	return d.mode.String() + "/unfragmented"
 }
 
-var deliveries = []delivery{{enum.NoEOF, 0}, {enum.EOFSeparate, 1}}
+var deliveries = []delivery{{mode: enum.NoEOF}, {mode: enum.EOFSeparate, chunk: 1}, {buf: true}}
+
+// source is a reader over an encoding and the number of bytes taken from it.
+// The decoders are handed r itself (not a wrapper): its dynamic type is part
+// of the delivery.
+type source struct {
+	r     io.Reader
+	taken func() int
+}
+
+func (d delivery) open(b []byte) source {
+	if d.buf {
+		bb := bytes.NewBuffer(append([]byte(nil), b...))
+		return source{bb, func() int { return len(b) - bb.Len() }}
+	}
+	rd := enum.NewFragReader(b, nil, d.mode, d.chunk)
+	return source{rd, rd.Pos}
+}
 
 func hexs(b []byte) string {
 	if len(b) > 96 {
@@ -135,15 +172,15 @@ func encodeClause(d *refmodel.Datum) (string, string) {
 	return "bytes-differ", fmt.Sprintf("Encode(%s) wrote %d bytes %s, documented serialization is %d bytes %s", rt, len(got), hexs(got), len(first), hexs(first))
 }
 
-func consumed(rd *enum.FragReader, n int) (string, string) {
-	if rd.Pos() == n {
+func consumed(rd source, n int) (string, string) {
+	if rd.taken() == n {
 		return "", ""
 	}
 	k := "over"
-	if rd.Pos() < n {
+	if rd.taken() < n {
 		k = "under"
 	}
-	return "consumed-" + k, fmt.Sprintf("consumed %d bytes of a %d-byte encoding", rd.Pos(), n)
+	return "consumed-" + k, fmt.Sprintf("consumed %d bytes of a %d-byte encoding", rd.taken(), n)
 }
 
 func readerClause(d *refmodel.Datum, dl delivery) (string, string) {
@@ -153,11 +190,11 @@ func readerClause(d *refmodel.Datum, dl delivery) (string, string) {
 		return "parse-error", fmt.Sprintf("signature.Parse(%q) returned %v", sig, err)
 	}
 	b := refmodel.Encode(d)
-	rd := enum.NewFragReader(b, nil, dl.mode, dl.chunk)
+	rd := dl.open(b)
 	var out []byte
 	err, pan := guarded(func() error {
 		var e error
-		out, e = pt.Reader().Read(rd)
+		out, e = pt.Reader().Read(rd.r)
 		return e
 	})
 	if pan {
@@ -178,10 +215,10 @@ func readerClause(d *refmodel.Datum, dl delivery) (string, string) {
 func decodeClause(d *refmodel.Datum, dl delivery) (string, string) {
 	rt := gobridge.GoType(d.T)
 	b := refmodel.Encode(d)
-	rd := enum.NewFragReader(b, nil, dl.mode, dl.chunk)
+	rd := dl.open(b)
 	p := reflect.New(rt)
 	err, pan := guarded(func() error {
-		return encoding.NewDecoder(encoding.DefaultCap(), rd).Decode(p.Interface())
+		return encoding.NewDecoder(encoding.DefaultCap(), rd.r).Decode(p.Interface())
 	})
 	if pan {
 		return "panic", err.Error()
@@ -251,7 +288,7 @@ func report(d *refmodel.Datum, ep entryPoint, dl delivery, clause string) {
 	}
 	fp := fmt.Sprintf("codec/%s/%s/%s", ep.name, mclause, detail)
 	if len(ep.dls) > 1 {
-		if c, _ := ep.eval(min, delivery{enum.EOFSeparate, 0}); c == "" {
+		if c, _ := ep.eval(min, delivery{mode: enum.EOFSeparate}); c == "" {
 			fp += "/" + dl.String()
 		}
 	}
@@ -281,28 +318,35 @@ func main() {
 	}
 	var nvals, nboundary, typeMismatch, typeChecked int64
 	var boundaryData []string
+	var zeroWidth map[string]interface{}
 	var mu sync.Mutex
 	var mismatches []string
 
 	finish := func() int {
 		rule := "every signature of Sig(D,2) (outer atoms c C w W i I l L f d b s m o, plus v alone; inner atoms i s b m C; map keys c C w W i I l L b s / i s C; tuples and structs of width <= 2 with at most one composite member) " +
-			"x every datum of Val(sig) x 3 entry points (reflect-encode; sigreader and reflect-decode each under 2 deliveries: sentinel follows/unfragmented, separate EOF/1 byte per read - depth-3 signatures under the first delivery only); " +
+			"x every datum of Val(sig) x 3 entry points (reflect-encode; sigreader and reflect-decode each under 3 deliveries: sentinel follows/unfragmented, separate EOF/1 byte per read, *bytes.Buffer holding exactly the encoding - depth-3 signatures under the first delivery only); " +
 			"plus the boundary family (families boundary/<entry point>): lists [i] [C] [s] [m] and maps {ii} {Iw} {wb} {si} taken alone, and a large map or list as struct member (c{Iw}W)<S,a,b,c>, list element [{ii}], map value {i{ii}}, tuple member ([i]) and carried by a dynamic value (m<[i]>, m<[m]>), " +
 			"each with exactly 4095 and 4096 entries (4096 = listValueMaxSize, the documented cap; nothing above the cap is enumerated), entry j a fixed function of j with distinct keys, through the same 3 entry points and deliveries " +
-			"(reflect-encode of a large map is compared with the documented serialization as a multiset of entries: the output must parse as a datum of the signature, re-encode to itself and equal the datum once every map is sorted by key); " +
-			"evaluations counts (datum, entry point, delivery) executions. A case class is (signature shape with struct names dropped - for the boundary family followed by #n=<entries> -, entry point, outcome); distinct_nontrivial counts the distinct classes executed"
+			"(reflect-encode of a large map is compared with the documented serialization as a multiset of entries: the output must parse as a datum of the signature, re-encode to itself and equal the datum once every map is sorted by key); the boundary family also holds the lists of zero-width elements [()], [v] and ([()]i); " +
+			"plus the zero-width family (families zero-width/<entry point>): element types Z = {(), ()<S>, v} and the tuples and structs of width 1 and 2 over them (27 types, every one serialized to nothing); containers [z] for every z of Z with 0..8 elements, {kv} for k, v in {(), ()<S>, v} and {(v)(v)} with 0 and 1 entry; " +
+			"every container c alone and at the positions (c), (c)<S,a>, (cC), (cw), (cCw), (ci) [1..4 bytes follow], (c()), (ic), [c] with two elements, {ic} with one entry, m<c>, through the 3 entry points under all 3 deliveries " +
+			"(coverage.zero_width gives the counts, among them the data whose container has more entries than bytes after it); " +
+			"evaluations counts (datum, entry point, delivery) executions. A case class is (signature shape with struct names dropped - for the boundary family followed by #n=<entries>, for the zero-width family followed by the position and by whether the count exceeds the bytes after the container -, entry point, outcome); distinct_nontrivial counts the distinct classes executed"
 		mu.Lock()
 		mm := append([]string(nil), mismatches...)
 		mu.Unlock()
 		extra := map[string]interface{}{
 			"depth": depth, "signatures": len(sigs), "values": nvals,
 			"boundary":                  map[string]interface{}{"documented_cap": sizeCap, "entries": boundaryCounts, "data_executed": nboundary, "data": boundaryData},
+			"zero_width":                zeroWidth,
 			"go_type_vs_signature_Type": map[string]interface{}{"compared_m_and_o_free_signatures": typeChecked, "different": typeMismatch, "first": mm},
 		}
 		assumptions := []string{
 			"the documented layout is the reference model written from doc/about-qimessaging.md; 8/16-bit integers little-endian fixed width; booleans one byte; 'v' no byte",
 			"the Go type of a signature is the one generated code uses: 'm' = value.Value, 'o' = object.ObjectReference, tuples struct{P0..}, structs with title-cased field names; for signatures without m/o it is compared with signature.Parse(sig).Type() (reported, not decided)",
 			"map keys are integers, booleans and strings (no float keys); maps have at most 2 entries except in the boundary family (4095 and 4096 entries), the encoder may emit them in any order",
+			"zero-width types (void, the empty tuple, a structure without member, tuples and structures of those) serialize to no byte, so a list of n of them is its 32-bit count alone; a map keyed by a zero-width type has at most one entry (the key type has a single value), wire counts above 1 for such maps are not judged; counts of zero-width elements stay <= 8 (and 4095/4096 in the boundary family): what the codecs do with huge counts over elements that consume no input belongs to C07",
+			"decoders are given three reader types/extents: the fragmenting reader with a sentinel after the encoding, the fragmenting reader with a separate EOF, and a *bytes.Buffer holding exactly the encoding (bytes.NewBuffer(payload), what generated code passes); other reader types (*bytes.Reader, bufio.Reader) are not enumerated",
 			"4096 entries (listValueMaxSize of type/encoding and type/value) is the largest list or map the codecs are documented to handle: 4095 and 4096 entries must be handled by the three entry points alike; larger counts are refused on purpose by the repository and are not judged",
 			"dynamic values carry every scalar kind, strings, void, [i], [s], (is), {sI}; 'r' (raw) is not enumerated: the repository's signature grammar has no 'r' atom",
 			"a codec call that does not return within the hang limit (5 executions) is reported as a violation with the clause 'hang' and ends the enumeration",
@@ -324,6 +368,7 @@ func main() {
 
 	// the boundary family first: a handful of data, never cut by the deadline
 	nboundary, boundaryData = familyBoundary()
+	zeroWidth = familyZeroWidth()
 
 	guards := make(chan *enum.Guard, run.Workers+1)
 	for i := 0; i <= run.Workers; i++ {
